@@ -420,6 +420,35 @@ def r5(ctx, r):
             r.expect(pa.entails(e, Or(Not(A("req")), A("stls"))), f, e, "TLS requested, plaintext session",
                      "%s inserts a session without TLS on a path where TLS was requested (%s == %s): application data would travel in clear text with no error (known: %s)" % (
                          name, reqfield, want, ",".join(pa.describe(e))), okdesc="%s: TLS requested ⇒ session carries an SSL object" % name)
+    # the OTHER TLS mode is a request for TLS as well (TlsMode has three values): an outgoing connection asked to play the server
+    # role / a listener asked to play the client role is refused — the insertion is never reached with that mode
+    for name, reqfield, other, coll in (("doConnect", "ConnectReq::tls", "Server", "_sessions"), ("doAddListener", "ListenerCfg::tls", "Client", "_listeners")):
+        f = fn(ctx, name)
+
+        def leafo(n, reqfield=reqfield, other=other):
+            if n.get("k") == "bin" and n["op"] in ("==", "!="):
+                l, rr = strip_casts(n["lhs"]), strip_casts(n["rhs"])
+                if l.get("k") == "member" and l["n"].endswith(reqfield) and rr.get("k") == "enum":
+                    if last(rr["n"]) == other:
+                        return A("other") if n["op"] == "==" else Not(A("other"))
+                    # tls == <another enumerator> true ⇒ not the `other` one
+                    return ("implies_not_other", n["op"] == "==")
+            return None
+
+        def leafo2(n):
+            x = leafo(n)
+            if isinstance(x, tuple) and x and x[0] == "implies_not_other":
+                return None
+            return x
+        pao = PredAbs(f, Vocab(["other"]), leafo2, lambda e: None)
+        sites = common.member_calls_on(f, TE + "::" + coll, ("emplace", "insert", "try_emplace"))
+        if not sites:
+            raise AnalysisBroken("%s: insertion into %s not found" % (name, coll))
+        for e in sites:
+            r.instance()
+            r.expect(pao.entails(e, Not(A("other"))), f, e, "TLS requested with the wrong role, served in clear text", "%s reaches its insertion with %s == TlsMode::%s possible: that mode is a request for TLS too, but only the "
+                     "matching role is handled, so a PLAINTEXT %s is created and announced — application bytes cross the wire in the clear with no error" % (name, reqfield, other, "session" if coll == "_sessions" else "listener"),
+                     okdesc="%s: TlsMode::%s refused before the insertion" % (name, other))
     dal = fn(ctx, "doAddListener")
     vocab = Vocab(["req", "ctx"])
 
